@@ -171,6 +171,102 @@ def run_script(script, retries, start_seq, ncalls):
     return bad
 
 
+HANDSHAKE_FAULTS = ["connectfail", "connectfail-then-garbage", "result-type", "ok-empty-data", "ok-undecodable", "ok-no-meta", "cut-header", "cut-body", "close", "ok-then-extra"]
+
+
+def handshake_faults(kind):
+    """the daemon answers the CONNECT request wrongly; whatever the proxy raises, afterwards it holds NO connection (so nothing of that exchange can be taken for a
+    later call's reply) - or a connection whose handshake completed; a following call on a healthy daemon is answered with its own reply"""
+    srv = socket.socket()
+    srv.bind(("127.0.0.1", 0))
+    srv.listen(5)
+    addr = srv.getsockname()
+    state = {"n": 0, "executions": {}}
+
+    def serve():
+        srv.settimeout(3.0)
+        while True:
+            try:
+                c, _ = srv.accept()
+            except (socket.timeout, OSError):
+                return
+            state["n"] += 1
+            conn = socketutil.SocketConnection(c)
+            try:
+                msg = P.recv_stub(conn, [P.MSG_CONNECT])
+                meta = {"methods": ["echo"], "oneway": [], "attrs": []}
+                ok = P.SendingMessage(P.MSG_CONNECTOK, 0, msg.seq, SER.serializer_id, SER.dumps({"handshake": "hello", "meta": meta})).data
+                stale = P.SendingMessage(P.MSG_RESULT, 0, (msg.seq + 1) & 0xffff, SER.serializer_id, SER.dumps("result-of-STALE")).data
+                if state["n"] == 1:
+                    if kind == "connectfail":
+                        conn.send(P.SendingMessage(P.MSG_CONNECTFAIL, 0, msg.seq, SER.serializer_id, SER.dumps("denied")).data)
+                    elif kind == "connectfail-then-garbage":
+                        conn.send(P.SendingMessage(P.MSG_CONNECTFAIL, 0, msg.seq, SER.serializer_id, SER.dumps("denied")).data + stale)
+                    elif kind == "result-type":
+                        conn.send(stale)
+                    elif kind == "ok-empty-data":
+                        conn.send(P.SendingMessage(P.MSG_CONNECTOK, 0, msg.seq, SER.serializer_id, b"").data + stale)
+                    elif kind == "ok-undecodable":
+                        conn.send(P.SendingMessage(P.MSG_CONNECTOK, 0, msg.seq, SER.serializer_id, b"\xff\xfe garbage").data + stale)
+                    elif kind == "ok-no-meta":
+                        conn.send(P.SendingMessage(P.MSG_CONNECTOK, 0, msg.seq, SER.serializer_id, SER.dumps({"handshake": "hello"})).data + stale)
+                    elif kind == "cut-header":
+                        c.sendall(ok[:17])
+                    elif kind == "cut-body":
+                        c.sendall(ok[:45])
+                    elif kind == "ok-then-extra":
+                        conn.send(ok)
+                    if kind != "ok-then-extra":
+                        time.sleep(0.05)
+                        c.close()
+                        continue
+                else:
+                    conn.send(ok)
+                while True:
+                    msg = P.recv_stub(conn, [P.MSG_INVOKE])
+                    obj, method, vargs, kwargs = SER.loadsCall(msg.data)
+                    state["executions"][vargs[0]] = state["executions"].get(vargs[0], 0) + 1
+                    conn.send(P.SendingMessage(P.MSG_RESULT, 0, msg.seq, SER.serializer_id, SER.dumps("result-of-" + vargs[0])).data)
+            except (errors.CommunicationError, OSError):
+                pass
+            finally:
+                try:
+                    c.close()
+                except OSError:
+                    pass
+    t = threading.Thread(target=serve, daemon=True)
+    t.start()
+    config.MAX_RETRIES = 0
+    config.COMMTIMEOUT = 0.3
+    config.SERIALIZER = "marshal"
+    desc = {"handshake_fault": kind}
+    bad = None
+    p = client.Proxy("PYRO:obj@%s:%d" % addr)
+    try:
+        try:
+            p._pyroBind()
+            if kind != "ok-then-extra":
+                bad = dict(desc, violated="the faulty handshake was accepted")
+        except Exception as x:      # noqa
+            if p._pyroConnection is not None:
+                bad = dict(desc, violated="after the failed handshake (%r) the proxy still holds the connection it was refused on" % (x,))
+        for j in range(2):
+            tok = "hs-%d-%d" % (j, random.randrange(10 ** 9))
+            try:
+                r = p.echo(tok)
+                if r != "result-of-" + tok:
+                    bad = bad or dict(desc, violated="after the handshake fault a call returned %r for %s" % (r, tok))
+            except errors.CommunicationError as x:
+                if j == 1:
+                    bad = bad or dict(desc, violated="proxy does not recover after the handshake fault: %r" % (x,))
+            except Exception as x:      # noqa
+                bad = bad or dict(desc, violated="unexpected exception after the handshake fault: %r" % (x,))
+    finally:
+        p._pyroRelease()
+        srv.close()
+    return bad
+
+
 def wraparound_stale():
     """listed known finding: the wire carries a 16-bit sequence number, so a stale reply recorded exactly 65536 calls earlier passes the sequence check.
     The 65536 calls in between are emulated by winding the proxy's counter back by one after the first call."""
@@ -213,6 +309,10 @@ def main(mode):
                         break
                     runs += 1
                     fail = run_script(script, retries, start_seq, len(script) + 1)
+        for kind in HANDSHAKE_FAULTS:
+            if not fail:
+                runs += 1
+                fail = handshake_faults(kind)
         runs += 1
         if wraparound_stale():
             known.append("C03-stale-reply-after-sequence-wraparound")
@@ -220,7 +320,7 @@ def main(mode):
         config.MAX_RETRIES, config.COMMTIMEOUT, config.SERIALIZER = saved
     rep = {"runs": runs, "failing_input": fail, "known_findings_reproduced": known, "wall_s": round(time.time() - t0, 2),
            "bounded": [{"what": "real Proxy against a scripted fake daemon applying reply fault scripts; MAX_RETRIES 0/1/2; sequence wrap-around",
-                        "bound": "single faults + pairs from %d fault kinds" % len(FAULTS), "runs": runs, "failures": 0 if fail is None else 1}]}
+                        "bound": "single faults + pairs from %d fault kinds; %d handshake faults" % (len(FAULTS), len(HANDSHAKE_FAULTS)), "runs": runs, "failures": 0 if fail is None else 1}]}
     print(json.dumps(rep))
     return 0
 
